@@ -281,6 +281,25 @@ pub fn check(tier: Tier, threads: usize) -> CheckOutcome {
         if tier == Tier::Thorough && job.frames.len() == 1 && job.bytes.len() <= 100 {
             segs.extend(corpus::two_cuts(job.bytes.len()));
         }
+        if job.bytes.len() > LIMIT as usize {
+            // an oversized frame: pairs (and triples) of cuts inside its body, where the discard loop runs
+            let l = job.bytes.len();
+            let first = frames[job.frames[0]].bytes().len().min(l);
+            let mut offs: Vec<usize> = vec![24, 25, 24 + 100, first / 4, first / 2, first / 2 + 1, 3 * first / 4, first - 1, first, first + 1, first + 24];
+            offs.retain(|o| *o > 0 && *o < l);
+            offs.sort();
+            offs.dedup();
+            for a in 0..offs.len() {
+                for b in (a + 1)..offs.len() {
+                    segs.push(vec![offs[a], offs[b]]);
+                    for c in (b + 1)..offs.len() {
+                        if tier == Tier::Thorough || (c - b == 1) {
+                            segs.push(vec![offs[a], offs[b], offs[c]]);
+                        }
+                    }
+                }
+            }
+        }
         for cuts in segs {
             let ch = corpus::split(&job.bytes, &cuts);
             let o = run_socket(&ch)?;
